@@ -44,7 +44,32 @@ def _is_strish(v):
     return isinstance(v, (str, AbsStr, Ch))
 
 
-def _genericise(interp, frame, names, str_suffix=None):
+def _monotone(body, v):
+    """+1 if every store to v in the loop body is `v += <non-negative constant>`, -1 if every one is `v -= ...`, else 0."""
+    sign = None
+    for st in body or []:
+        for n in ast.walk(st):
+            tgts = []
+            if isinstance(n, ast.Assign):
+                tgts = [t for t in n.targets for t in ast.walk(t)]
+            elif isinstance(n, (ast.AnnAssign, ast.For)):
+                tgts = list(ast.walk(n.target))
+            elif isinstance(n, ast.AugAssign):
+                if isinstance(n.target, ast.Name) and n.target.id == v:
+                    if isinstance(n.op, (ast.Add, ast.Sub)) and isinstance(n.value, ast.Constant) and isinstance(n.value.value, int) \
+                            and not isinstance(n.value.value, bool) and n.value.value >= 0:
+                        s_ = 1 if isinstance(n.op, ast.Add) else -1
+                        if sign not in (None, s_):
+                            return 0
+                        sign = s_
+                        continue
+                    return 0
+            if any(isinstance(t, ast.Name) and t.id == v for t in tgts):
+                return 0
+    return sign or 0
+
+
+def _genericise(interp, frame, names, str_suffix=None, body=None):
     """Replace accumulators by generic values; returns dict name -> ('lin', Sym) | ('str', Blob) | ('same', value)."""
     gen = {}
     for v in names:
@@ -53,6 +78,15 @@ def _genericise(interp, frame, names, str_suffix=None):
         cur = frame.locals[v]
         if _is_num(cur):
             g = Sym("g%d_%s" % (next(_ids), v))
+            # a counter that the body only ever raises (lowers) is, at the head of any iteration, at least (at most) what
+            # it is now
+            mono = _monotone(body, v) if body is not None and Lin.of(cur) is not None else 0
+            if mono:
+                lo, hi = interp.lin_interval(Lin.of(cur))
+                if mono > 0 and lo != -INF:
+                    g = Sym(g.name, lo, INF)
+                elif mono < 0 and hi != INF:
+                    g = Sym(g.name, -INF, hi)
             frame.locals[v] = Lin({g: 1}, 0)
             gen[v] = ("lin", g)
         elif _is_strish(cur):
@@ -164,7 +198,7 @@ def _summarise_segment(interp, st, frame, classes, run_atom=None):
     per_class = []
     for ch, cnt, label in classes:
         frame.locals = dict(saved)
-        gen = _genericise(interp, frame, names)
+        gen = _genericise(interp, frame, names, body=st.body)
         one = next(iter(ch.members)) if ch.members is not None and len(ch.members) == 1 else ch
         interp.assign(st.target, one, frame)
         n0 = len(interp.chooser.trace)
